@@ -871,4 +871,78 @@ def rule_array_extent(P):
     return R
 
 
-RULES = [rule_next_level, rule_terminal_type, rule_index_kind, rule_fold_zeros, rule_card_skipped, rule_mark_once, rule_array_extent]
+def rule_position_kind(P):
+    """a sparsely unpacked node is walked by *position* z (0 ≤ z < getSize()); the variable's value at that position is index(z).  Positions address
+    the node (down(z), edgeval(z), index(z)); values address everything else (the identity pattern built for that value, the slot of a full node,
+    the state's component).  Passing the position where the value is meant works whenever the node happens to be dense from 0 (seed C20a)"""
+    R = RuleResult("level.position-kind", "in every function that walks a sparse node: where a local reaches a use as the argument of index(·) (a position), it is never passed as the value argument of initIdentity / newIdentity; where the reaching definition of a local is index(z) of a node (a value), it is never used as the argument of down(·) / edgeval(·) / index(·) of that same node")
+    n = 0
+    seen = set()
+    for f in sorted(P.fns.values(), key=lambda f: (f["file"], f["line"], f["inst"])):
+        if not f.get("cfg") or not f["file"].startswith(("operations/", "forest.cc", "minterms.cc", "dd_edge.cc", "sat_relations.cc")) or (f["file"], f["line"]) in seen:
+            continue
+        if not any(e["k"] == "call" and e["q"] == M + "unpacked_node::index" for b in f["cfg"]["blocks"] for e in b["ev"]):
+            continue
+        seen.add((f["file"], f["line"]))
+        g = Graph(f)
+        defs = {}
+        for k in g.nodes:
+            if k.kind == "ldef":
+                defs.setdefault(k.ev["var"], []).append(k)
+
+        def reaching(var, use):
+            """definitions of var that reach node `use` (no other definition of var in between)"""
+            ds = defs.get(var, [])
+            ids = {d.id for d in ds}
+            return [d for d in ds if any(st == use.id or g.path(st, lambda k: k.id == use.id, avoid=lambda k: k.id in ids) is not None for st, _ in d.succ)]
+        idx_uses = {}       # var -> [index(var) call nodes]
+        for k in g.nodes:
+            if k.kind == "call" and k.ev["q"] == M + "unpacked_node::index" and k.ev.get("args") and re.fullmatch(r"\w+", _nz(k.ev["args"][0])):
+                idx_uses.setdefault(_nz(k.ev["args"][0]), []).append(k)
+        for k in g.nodes:
+            if k.kind != "call" or not k.ev["q"].startswith(M + "unpacked_node::"):
+                continue
+            nm = k.ev["q"].split("::")[-1]
+            args = [_nz(a) for a in (k.ev.get("args") or [])]
+            if nm in ("initIdentity", "newIdentity"):
+                li = next((i for i, a in enumerate(args) if re.search(r"[lL]evel|^-", a)), None)
+                cand = args[li + 1:li + 2] if li is not None else []
+                for a in cand:
+                    if not re.fullmatch(r"\w+", a):
+                        continue
+                    rd = reaching(a, k)
+                    is_value = bool(rd) and all(re.search(r"->index\(\w+\)", _nz(d.ev.get("rhs", ""))) for d in rd)
+                    # a position: the same reaching definitions also reach an index(a) use
+                    is_pos = any({d.id for d in reaching(a, u)} & {d.id for d in rd} for u in idx_uses.get(a, [])) if rd else (a in idx_uses)
+                    if not is_value and not is_pos:
+                        continue
+                    n += 1
+                    R.functions.add(f["inst"])
+                    R.paths += 1
+                    iid = "%s: %s(…, %s, …) takes a value" % (base_name(f["q"]).replace(M, "")[:60], nm, a)
+                    if is_pos and not is_value:
+                        R.fail(iid, where(f, k.line), Finding(R.rule, f["file"], base_name(f["q"]), "%s(%s)" % (nm, a),
+                               "`%s` is a position in a sparse node here (the same definition feeds index(%s)) but is passed to %s as the variable's value: right only while the node is dense from 0" % (a, a, nm), k.line))
+                    else:
+                        R.ok(iid, where(f, k.line))
+            elif nm in ("down", "edgeval", "index") and args and re.fullmatch(r"\w+", args[0]) and args[0] in defs:
+                rd = reaching(args[0], k)
+                vals = [d for d in rd if re.fullmatch(r"(?:\w+\()?([\w>\[\].-]+)->index\((\w+)\)\)?", _nz(d.ev.get("rhs", "")))]
+                if not vals:
+                    continue
+                node = re.fullmatch(r"(?:\w+\()?([\w>\[\].-]+)->index\((\w+)\)\)?", _nz(vals[0].ev["rhs"])).group(1)
+                if _nz(k.ev.get("recv") or "") != node:
+                    continue
+                n += 1
+                R.functions.add(f["inst"])
+                R.paths += 1
+                R.fail("%s: %s->%s(%s)" % (base_name(f["q"]).replace(M, "")[:60], node, nm, args[0]), where(f, k.line),
+                       Finding(R.rule, f["file"], base_name(f["q"]), "%s->%s(%s)" % (node, nm, args[0]),
+                               "`%s` holds a value index(·) of `%s` here but is used to address the same node by position" % (args[0], node), k.line))
+    if n < 8:
+        raise AnalysisBroken("level.position-kind: only %d typed position/value uses found, expected ≥8" % n)
+    R.require_floor(8, "typed position / value uses in sparse walks")
+    return R
+
+
+RULES = [rule_next_level, rule_terminal_type, rule_index_kind, rule_fold_zeros, rule_card_skipped, rule_mark_once, rule_array_extent, rule_position_kind]
